@@ -81,6 +81,14 @@ func typeShapes() []struct {
 		{"SPDep", Slice(Ptr(Named(a, "T")))}, {"MapSS", Map(Basic("string"), Slice(Named(b, "T")))}, {"DepU", Named(a, "U")}, {"DepI", Named(b, "I")},
 		{"SliceLocal", Slice(Named(-1, "LocalT"))}, {"FnLocal", Func([]T{Named(-1, "LocalT")}, nil)}, {"PP", Ptr(Ptr(Basic("int")))},
 		{"ChanFn", Chan("", Func([]T{Named(b, "T")}, nil))}, {"SliceErr", Slice(errT)}, {"MapAny", Map(Basic("string"), AliasT("any"))},
+		// alias declarations, generic aliases with non-named targets
+		{"AliasDep", AliasIn(a, "A")}, {"GAlias", AliasIn(a, "GA", Named(b, "T"))}, {"OptAlias", AliasIn(a, "Opt", Named(b, "T"))}, {"GAliasLocal", AliasIn(b, "GA", Named(-1, "LocalT"))},
+		// one package mentioned twice, the later mention an instantiation that carries another package / a source type
+		{"TwiceGen", Map(Named(a, "U"), NamedG(a, "G", Named(b, "T")))}, {"NestGen", NamedG(a, "G", NamedG(a, "G", Named(b, "T")))},
+		{"TwiceLocal", Map(Named(a, "U"), NamedG(a, "G", Named(-1, "LocalT")))}, {"PairMix", NamedG(a, "Pair", NamedG(a, "G", Named(b, "U")), Named(-1, "LocalT"))},
+		{"FnTwice", Func([]T{Named(a, "T"), NamedG(a, "G", Named(b, "T"))}, []T{Named(b, "U")})},
+		// literals that embed named types
+		{"IfaceEmbed", IfaceEmbed(Named(a, "I"))}, {"StructEmbed", StructEmbed(Named(b, "T"))}, {"IfaceEmbedLocal", IfaceEmbed(Named(-1, "LocalC"))},
 	}
 }
 
@@ -104,6 +112,15 @@ func CorpusTypes(seed int64, tier string) []*Case {
 		for _, cfg := range rotate(i+int(seed), k) {
 			cfg.Args = []string{it.Name}
 			cases = append(cases, &Case{Origin: "types:" + sh.Name, Src: src, Cfg: cfg, Judge: baseJudge, Repeat: 2})
+		}
+		// the same interface in a source package that is itself called like one of
+		// its dependencies (matters when the mock lives in another package)
+		if len(shapePkgs(t)) > 0 {
+			src2 := newSrc("alpha", pkgs, it)
+			for _, cfg := range []Cfg{{Dest: "other"}, {Dest: "other", SkipEnsure: true, Stub: true}, {Dest: "srcTest", WithResets: true}} {
+				cfg.Args = []string{it.Name}
+				cases = append(cases, &Case{Origin: "types:" + sh.Name + ":srcnamed-alpha", Src: src2, Cfg: cfg, Judge: baseJudge})
+			}
 		}
 	}
 	return cases
@@ -155,7 +172,8 @@ func CorpusImports(seed int64, tier string) []*Case {
 		if oneType && len(pkgs) == 2 {
 			// both packages inside one parameter type: the order in which they reach
 			// the registry is the type-walk order, not a map order
-			it.Methods = append(it.Methods, meth("M1", ps(par("m", Map(Named(0, "U"), Named(1, "T")))), nil))
+			// earlier parameters named after both packages, then one type that brings both in
+			it.Methods = append(it.Methods, meth("M1", ps(par(pkgs[0].Name, Basic("string")), par(pkgs[1].Name, Basic("int")), par("m", Map(Named(0, "U"), Named(1, "T")))), nil))
 			it.Aliases = append(it.Aliases, map[int]string{})
 			// source aliases are declared by other files of the package
 			for i := range pkgs {
@@ -213,7 +231,7 @@ func CorpusImports(seed int64, tier string) []*Case {
 			mk(sel, nil, name(sel))
 			// source aliases: free, equal to the other package's name (either order),
 			// equal to each other's would-be alias, both aliased
-			for _, al := range [][]string{{"al", ""}, {"", "al"}, {b.Name, ""}, {"", a.Name}, {"al", "al2"}, {"xy", ""}} {
+			for _, al := range [][]string{{"al", ""}, {"", "al"}, {b.Name, ""}, {"", a.Name}, {"al", "al2"}, {"xy", ""}, {"al", "al"}, {"v1", "v1"}} {
 				if al[0] == a.Name && al[1] == "" && a.Name == b.Name {
 					continue // a file cannot alias a package to the name the other file's package already has? it can: different files
 				}
@@ -249,7 +267,8 @@ func CorpusImports(seed int64, tier string) []*Case {
 func CorpusNames(seed int64, tier string) []*Case {
 	var cases []*Case
 	pkgs := []Pkg{dep("s1", "n", "s1"), dep("ctx", "n", "ctx")}
-	names := []string{"", "_", "s", "s1", "s2", "n", "x", "xOut", "sMoqParam", "id", "Id", "url", "ctx", "sync", "T", "v", "err", "in", "out", "result"}
+	names := []string{"", "_", "s", "s1", "s2", "n", "x", "xOut", "sMoqParam", "id", "Id", "url", "ctx", "sync", "T", "v", "err", "in", "out", "result",
+		"key", "_key", "__key", "x_", "x_1", "Key_"}
 	types := []T{Basic("string"), Basic("int"), Named(0, "T"), Named(1, "T"), errT}
 	rng := rand.New(rand.NewSource(seed))
 	var methods []Method
@@ -336,7 +355,8 @@ func CorpusNames(seed int64, tier string) []*Case {
 
 func CorpusGenerics(seed int64, tier string) []*Case {
 	var cases []*Case
-	pkgs := []Pkg{dep("alpha", "x", "alpha"), dep("knum", "x", "knum")}
+	// knum twice: two packages of one name, so that a later import re-aliases an earlier one
+	pkgs := []Pkg{dep("alpha", "x", "alpha"), dep("knum", "x", "knum"), dep("knum", "y", "knum")}
 	type g struct {
 		name string
 		tps  []TypeParam
@@ -350,16 +370,18 @@ func CorpusGenerics(seed int64, tier string) []*Case {
 		c2 := constraints[(i+3)%len(constraints)]
 		gs = append(gs, g{fmt.Sprintf("G2x%d", i), []TypeParam{{Name: "K", Constraint: c1}, {Name: "V", Constraint: c2}}})
 	}
+	gs = append(gs, g{"GNumA", []TypeParam{{Name: "N", Constraint: "pkgnum:1"}, {Name: "V", Constraint: "any"}}}, g{"GNumB", []TypeParam{{Name: "V", Constraint: "any"}, {Name: "N", Constraint: "pkgnum:2"}}})
 	gs = append(gs, g{"GLower", []TypeParam{{Name: "t", Constraint: "any"}}}, g{"GSwap", []TypeParam{{Name: "B", Constraint: "any"}, {Name: "A", Constraint: "stringer"}}},
 		g{"G3", []TypeParam{{Name: "A", Constraint: "any"}, {Name: "B", Constraint: "union"}, {Name: "C", Constraint: "any"}}})
 	for i, x := range gs {
 		first, last := TParam(x.tps[0].Name), TParam(x.tps[len(x.tps)-1].Name)
-		it := Iface{Name: x.name, TParams: x.tps, OneFile: true, Methods: []Method{
+		it := Iface{Name: x.name, TParams: x.tps, OneFile: true, Aliases: []map[int]string{{2: "knumb"}}, Methods: []Method{
 			meth("Get", ps(par("k", first)), ps(par("", last), par("", Basic("bool")))),
 			meth("Put", ps(par("k", first), par("v", last), par("extra", Named(0, "T"))), nil),
 			meth("All", nil, ps(par("", Map(Basic("string"), Slice(last))))),
 			{Name: "Many", Params: ps(par("vs", Slice(last))), Results: ps(par("", first)), Variadic: true},
 			meth("Wrap", ps(par("g", NamedG(0, "G", first))), ps(par("", Ptr(last)))),
+			meth("Zed", ps(par("other", Named(2, "T"))), nil), // the other package called knum, met last
 		}}
 		src := newSrc("gsrc", pkgs, it)
 		k := 4
@@ -389,6 +411,17 @@ func CorpusFlags(seed int64, tier string) []*Case {
 		{Name: "Vari", Methods: []Method{{Name: "Log", Params: ps(par("format", Basic("string")), par("args", Slice(AliasT("any")))), Results: []Param{}, Variadic: true}}},
 	}
 	src := newSrc("fsrc", pkgs, ifs...)
+	for ci, cfg := range allCfgs() {
+		if tier != "thorough" && (ci+int(seed))%4 != 0 {
+			continue
+		}
+		for _, l := range [][]string{{"Empty", "Plain"}, {"Plain", "Empty"}, {"Gen", "Plain"}, {"Plain", "Gen", "Empty"}, {"Empty"}, {"Gen", "Vari"}} {
+			c := cfg
+			c.Args = l
+			cases = append(cases, &Case{Origin: "flags:" + strings.Join(l, "+"), Src: src, Cfg: c, RunFmts: true, Solo: true,
+				Judge: []string{"C01", "C02", "C08", "C10", "C11", "C16", "C19", "C20"}})
+		}
+	}
 	i := 0
 	for ci, cfg := range allCfgs() {
 		for ii, it := range ifs {
@@ -418,6 +451,8 @@ func CorpusMulti(seed int64, tier string) []*Case {
 		{Name: "Writer", Methods: []Method{meth("Write", ps(par("c", Named(0, "T")), par("s", Named(1, "T"))), ps(par("", errT)))}},
 		{Name: "Other", Methods: []Method{meth("Use", ps(par("c", Named(2, "T"))), nil), meth("Zap", nil, ps(par("", Named(1, "U"))))}},
 		{Name: "Nothing"},
+		{Name: "Cache", TParams: []TypeParam{{Name: "K", Constraint: "any"}, {Name: "V", Constraint: "any"}}, OneFile: true,
+			Methods: []Method{meth("Get", ps(par("k", TParam("K"))), ps(par("", TParam("V")), par("", Basic("bool")))), meth("Put", ps(par("k", TParam("K")), par("v", TParam("V"))), nil)}},
 	}
 	src := newSrc("msrc", pkgs, ifs...)
 	names := []string{"Reader", "Writer", "Other", "Nothing"}
@@ -434,7 +469,8 @@ func CorpusMulti(seed int64, tier string) []*Case {
 			}
 		}
 	}
-	lists = append(lists, []string{"Reader:Reader", "Writer"}, []string{"Writer:Other", "Reader:Nothing"}, []string{"Other:Writer"},
+	lists = append(lists, []string{"Cache", "Reader"}, []string{"Reader", "Cache"}, []string{"Cache", "Nothing", "Writer"}, []string{"Nothing", "Cache:Mem"},
+		[]string{"Reader:Reader", "Writer"}, []string{"Writer:Other", "Reader:Nothing"}, []string{"Other:Writer"},
 		[]string{"Reader:R1", "Writer:W1"}, []string{"Other:Fake", "Reader"}, []string{"Reader:ReaderDouble", "Reader:ReaderTwin"},
 		[]string{"Writer:Alpha", "Other:Beta", "Reader:Gamma"}, []string{"Reader", "Writer", "Other", "Nothing"})
 	for i, l := range lists {
@@ -554,4 +590,10 @@ func sortMethods(it *Iface) {
 	}
 	it.Methods = ms
 	it.Aliases = it.Aliases[:len(ms)]
+}
+
+func shapePkgs(t T) []int {
+	var idx []int
+	walk(t, &idx)
+	return idx
 }
